@@ -37,6 +37,16 @@ func (r *rs) psyncReply() {
 		return
 	}
 	_, sb := pat.Stmt("_x, _err = redis.AsString(_r, nil)").Find(info, fn.Decl.Body, db)
+	if sb == nil {
+		// the decoded reply may travel through another variable (the result of a helper that decodes it,
+		// expanded in place: `r, err = decoded, nil` on success, `r, err = nil, <error>` otherwise): every
+		// definition of the variable that can arrive at AsString is the decoded value or nil
+		if as, b2 := pat.Stmt("_x, _err = redis.AsString(_y, nil)").Find(info, fn.Decl.Body, nil); as != nil {
+			if at, ok := flow.PointOf(g, as); ok && carriesOrNil(g, at, b2["_y"].(ast.Expr), flow.Obj(info, db["_r"]), 0) {
+				sb = b2
+			}
+		}
+	}
 	var xb pat.Binds
 	// The reply line split into fields: strings.Split(line, " ") / SplitN / strings.Fields(line), where
 	// line is the reply through pure string transformers. Conversions and trimming are transparent; a
@@ -346,23 +356,172 @@ func (r *rs) continueReturn(fn *core.Fn, g *cfgq.Graph, ret *ast.ReturnStmt, run
 // ---------------------------------------------------------------------------
 // R2 / R5.use: sendPSyncCmd
 
+// carriesOrNil: every definition of e that can arrive at `at` gives it obj's value (directly or through
+// copies) or the literal nil; at least one gives obj's value.
+func carriesOrNil(g *cfgq.Graph, at cfgq.Point, e ast.Expr, obj types.Object, depth int) bool {
+	info := g.Info
+	e = unconv(info, e)
+	if obj == nil || depth > 3 {
+		return false
+	}
+	if flow.IsObj(info, obj)(e) {
+		return true
+	}
+	v, isVar := flow.Obj(info, e).(*types.Var)
+	if !isVar || v.IsField() {
+		return false
+	}
+	isDef := assignsTo(info, v)
+	target := at.Node()
+	some := false
+	for _, p := range g.Points(isDef) {
+		if p.Node() == target || g.Path(cfgq.Query{From: p, After: true, Avoid: isDef, Target: func(m ast.Node) bool { return m == target }}) == nil {
+			continue
+		}
+		as := p.Node().(*ast.AssignStmt)
+		if len(as.Lhs) != len(as.Rhs) || as.Tok != token.ASSIGN && as.Tok != token.DEFINE {
+			return false
+		}
+		for i, l := range as.Lhs {
+			if !flow.IsObj(info, v)(l) {
+				continue
+			}
+			switch {
+			case core.IsNil(info, as.Rhs[i]):
+			case carriesOrNil(g, p, as.Rhs[i], obj, depth+1):
+				some = true
+			default:
+				return false
+			}
+		}
+	}
+	return some
+}
+
 // sameValue: does expression e, read at point `at`, carry the value held by
 // obj? known is false when e is a variable whose value cannot be traced to a
 // single definition - then nothing is claimed either way.
-func sameValue(g *cfgq.Graph, at cfgq.Point, e ast.Expr, obj types.Object) (same, known bool) {
+// outer is the body of the enclosing function when g is the graph of a function literal inside it (nil
+// otherwise): a variable captured by the literal is defined out there.
+func sameValue(g *cfgq.Graph, outer ast.Node, at cfgq.Point, e ast.Expr, obj types.Object) (same, known bool) {
 	info := g.Info
 	cur := unconv(info, e)
 	for i := 0; i < 6; i++ {
 		if flow.IsObj(info, obj)(cur) {
 			return true, true
 		}
+		if sel, isSel := cur.(*ast.SelectorExpr); isSel {
+			// a field of a struct local (or of a pointer to a literal built here): what the literal gave it,
+			// provided nothing that can run before `at` writes the field or hands the struct to other code
+			base := flow.Obj(info, sel.X)
+			bv, isVar := base.(*types.Var)
+			if !isVar || bv.IsField() || bv.Pkg() == nil || bv.Parent() == bv.Pkg().Scope() {
+				return false, false
+			}
+			target := at.Node()
+			touches := func(n ast.Node) bool {
+				hit := false
+				core.Inspect(n, func(m ast.Node) bool {
+					switch x := m.(type) {
+					case *ast.AssignStmt:
+						for _, l := range x.Lhs {
+							if ls, ok := ast.Unparen(l).(*ast.SelectorExpr); ok && flow.IsObj(info, bv)(ls.X) && ls.Sel.Name == sel.Sel.Name {
+								hit = true
+							}
+							if st, ok := ast.Unparen(l).(*ast.StarExpr); ok && flow.IsObj(info, bv)(st.X) {
+								hit = true
+							}
+						}
+					case *ast.CallExpr:
+						// a pointer to the struct (the variable itself when it is one, or its address) handed to
+						// other code: the field may be rewritten there
+						_, isPtr := bv.Type().Underlying().(*types.Pointer)
+						for _, a := range x.Args {
+							if isPtr && flow.IsObj(info, bv)(a) {
+								hit = true
+							}
+						}
+						if isAddrArg(x, bv, info) {
+							hit = true
+						}
+						if fs, ok := ast.Unparen(x.Fun).(*ast.SelectorExpr); ok && flow.IsObj(info, bv)(fs.X) {
+							if sl := info.Selections[fs]; sl != nil && sl.Kind() == types.MethodVal {
+								hit = true // a method of the struct may write its fields
+							}
+						}
+					}
+					return !hit
+				})
+				return hit
+			}
+			for _, p := range g.Points(touches) {
+				if p.Node() != target && g.Path(cfgq.Query{From: p, After: true, Target: func(m ast.Node) bool { return m == target }}) != nil {
+					return false, false
+				}
+			}
+			d := flow.ChaseDef(g, sel, at)
+			if d == ast.Expr(sel) {
+				return false, false
+			}
+			dd, p := flow.ReachingDefAt(g, bv, at)
+			if dd == nil {
+				return false, false
+			}
+			cur, at = unconv(info, d), p
+			continue
+		}
 		o := flow.Obj(info, cur)
 		if o == nil {
-			return false, true // a literal, a call, a field: not the variable's value by any copy
+			return false, true // a literal, a call: not the variable's value by any copy
 		}
 		v, isVar := o.(*types.Var)
 		if !isVar {
 			return false, true
+		}
+		if outer != nil && !flow.DefinedIn(info, g.Body, v) && flow.DefinedIn(info, outer, v) {
+			// captured from the enclosing function: its one assignment out there is its value in here
+			// (several, or one inside a literal that may run concurrently: nothing can be said)
+			if flow.Assignments(info, outer, v) != 1 || flow.Assignments(info, g.Body, v) != 0 {
+				return false, false
+			}
+			var rhs ast.Expr
+			core.Inspect(outer, func(m ast.Node) bool {
+				switch x := m.(type) {
+				case *ast.AssignStmt:
+					if len(x.Lhs) == len(x.Rhs) && (x.Tok == token.ASSIGN || x.Tok == token.DEFINE) {
+						for i, l := range x.Lhs {
+							if flow.IsObj(info, v)(l) {
+								rhs = x.Rhs[i]
+							}
+						}
+					}
+				case *ast.ValueSpec:
+					if len(x.Names) == len(x.Values) {
+						for i, nm := range x.Names {
+							if info.Defs[nm] == types.Object(v) {
+								rhs = x.Values[i]
+							}
+						}
+					}
+				}
+				return true
+			})
+			if rhs == nil {
+				return false, false
+			}
+			r := unconv(info, rhs)
+			if flow.IsObj(info, obj)(r) {
+				return true, true
+			}
+			if ro, isVar := flow.Obj(info, r).(*types.Var); isVar && flow.Assignments(info, outer, ro) == 0 {
+				return false, true // another never-assigned variable (a different parameter)
+			}
+			if _, isID := r.(*ast.Ident); !isID {
+				if _, isSel := r.(*ast.SelectorExpr); !isSel {
+					return false, true // built out there from something else
+				}
+			}
+			return false, false
 		}
 		if flow.Assignments(info, g.Body, v) == 0 {
 			return false, true // a parameter (or a variable never assigned): a different value
@@ -376,9 +535,19 @@ func sameValue(g *cfgq.Graph, at cfgq.Point, e ast.Expr, obj types.Object) (same
 	return false, false
 }
 
+// isAddrArg: the call takes the address of v (&v among its arguments).
+func isAddrArg(call *ast.CallExpr, v types.Object, info *types.Info) bool {
+	for _, a := range call.Args {
+		if u, ok := ast.Unparen(a).(*ast.UnaryExpr); ok && u.Op == token.AND && flow.IsObj(info, v)(u.X) {
+			return true
+		}
+	}
+	return false
+}
+
 // checkSame records `e carries obj's value` as an obligation: VIOLATION only when e provably is something else.
-func (r *rs) checkSame(rule, key string, pos token.Pos, g *cfgq.Graph, at cfgq.Point, e ast.Expr, obj types.Object, detail string) {
-	same, known := sameValue(g, at, e, obj)
+func (r *rs) checkSame(rule, key string, pos token.Pos, g *cfgq.Graph, outer ast.Node, at cfgq.Point, e ast.Expr, obj types.Object, detail string) {
+	same, known := sameValue(g, outer, at, e, obj)
 	if !known {
 		r.c.Undecidedf(rule, key, pos, "cannot trace %s to a single definition; required: %s", r.c.Src(e), detail)
 		return
@@ -454,7 +623,7 @@ func (r *rs) sendPSyncCmd() {
 			"the copy goroutine must get the connection together with the one reader created over it: the reader holds the bytes that follow the PSYNC reply")
 		okS, wS := g.Dominated(gp, stored)
 		c.Check("R5.use", key+"/offset-stored", gc.Pos(), okS, "the offset announced by the source must be stored in ds.sourceOffset before the stream is consumed: all later ACKs and checkpoints count from it", wS...)
-		r.checkSame("R5.use", key+"/runid-passed", gc.Pos(), g, gp, gc.Args[4], res[0], "the run id announced by the source is the one the copy loop reconnects with")
+		r.checkSame("R5.use", key+"/runid-passed", gc.Pos(), g, nil, gp, gc.Args[4], res[0], "the run id announced by the source is the one the copy loop reconnects with")
 		// the size
 		isWait := flow.IsObj(info, res[2])
 		size := unconv(info, flow.Resolve(info, fn.Decl.Body, gc.Args[3]))
@@ -489,7 +658,7 @@ func (r *rs) sendPSyncCmd() {
 		if !core.IsNil(info, ret.Results[4]) || g.Path(cfgq.Query{From: hp, After: true, Target: isNode(ret)}) == nil {
 			continue
 		}
-		r.checkSame("R5.use", "sendPSyncCmd/returns-runid", ret.Pos(), g, p, ret.Results[3], res[0], "the run id reported to Sync is the one announced by the source")
+		r.checkSame("R5.use", "sendPSyncCmd/returns-runid", ret.Pos(), g, nil, p, ret.Results[3], res[0], "the run id reported to Sync is the one announced by the source")
 	}
 }
 
